@@ -285,6 +285,16 @@ func runLS(key string, local bool, nThreads int, b []byte) uint32 {
 	l := lsGet(key, local)
 	fwface.VerifC04Handle(l, b)
 	q := queued()
+	if q > 0 {
+		for _, t := range recThreads {
+			for _, p := range t.interests {
+				sweepPacket(p.L3)
+			}
+			for _, p := range t.datas {
+				sweepPacket(p.L3)
+			}
+		}
+	}
 	st, _ := fwface.VerifC04DumpCheap(l)
 	var sig uint32
 	if q > 0 {
@@ -371,12 +381,30 @@ func buildEntries() {
 			wide = tagWide | tagB3
 		}
 		add(entry{name: "spec.ReadPacket/" + s.name, tags: s.tags | tagPacket | wide, own: -1, slack: s.slack,
-			run: func(b []byte) uint32 { _, _, err := spec.ReadPacket(s.mk(b)); return errKind(err) }})
+			run: func(b []byte) uint32 {
+				p, _, err := spec.ReadPacket(s.mk(b))
+				if err == nil {
+					sweepPacket(p)
+				}
+				return errKind(err)
+			}})
 		if s.name == "buf" || s.name == "wire:each" {
 			add(entry{name: "spec.Spec.ReadInterest/" + s.name, tags: s.tags | tagPacket, own: -1, slack: s.slack,
-				run: func(b []byte) uint32 { _, _, err := spec.Spec{}.ReadInterest(s.mk(b)); return errKind(err) }})
+				run: func(b []byte) uint32 {
+					i, _, err := spec.Spec{}.ReadInterest(s.mk(b))
+					if err == nil {
+						sweep(i, 0)
+					}
+					return errKind(err)
+				}})
 			add(entry{name: "spec.Spec.ReadData/" + s.name, tags: s.tags | tagPacket, own: -1, slack: s.slack,
-				run: func(b []byte) uint32 { _, _, err := spec.Spec{}.ReadData(s.mk(b)); return errKind(err) }})
+				run: func(b []byte) uint32 {
+					d, _, err := spec.Spec{}.ReadData(s.mk(b))
+					if err == nil {
+						sweep(d, 0)
+					}
+					return errKind(err)
+				}})
 			add(entry{name: "enc.ReadName/" + s.name, tags: s.tags, own: -1, slack: s.slack,
 				run: func(b []byte) uint32 { _, err := enc.ReadName(s.mk(b)); return errKind(err) }})
 			add(entry{name: "enc.ReadComponent/" + s.name, tags: s.tags, own: -1, slack: s.slack,
